@@ -1020,6 +1020,37 @@ pub fn run(args: &Args, sink: &mut Sink) {
         }
         sink.stat_n("burst_cases", nl);
     }
+    // ---- LL. many limit / count values without a visible effect queued before one poll (a limit stream that is a queue),
+    //          then Pending, then one with an effect: it must wake the adapter and be delivered (C14: the limit stream was
+    //          polled to Pending, i.e. its waker is registered, however many values it had to swallow) --------------------
+    {
+        let mut nll = 0u64;
+        let stages: Vec<(Vec<Spec>, usize, usize)> = vec![
+            (vec![Spec::DTailI(2, 0)], 2, 3), (vec![Spec::DHeadI(2, 0)], 2, 3), (vec![Spec::DSkipI(1, 0)], 1, 0),
+            (vec![Spec::DTailI(2, 0), Spec::Filter(0xFF)], 2, 3), (vec![Spec::Filter(0xFF), Spec::DHeadI(2, 0)], 2, 3),
+        ];
+        let counts: Vec<usize> = if thorough { vec![1, 7, 8, 9, 15, 16, 17, 31, 32, 33, 63, 64, 65, 128, 129] } else { vec![7, 8, 9, 16, 17, 32, 33, 64] };
+        for (specs, same, eff) in &stages {
+            for batched in [false, true] {
+                for &n in &counts {
+                    for src_too in [false, true] {
+                        nll += 1;
+                        let (same, eff) = (*same, *eff);
+                        run_seq(sink, &format!("LL{nll}"), 16, &[1, 2, 3], batched, specs, &move |w, s| {
+                            w.pdrain(s);
+                            for _ in 0..n { w.limit(s, 0, same); }
+                            w.ppoll(s);            // swallows the n values, nothing to hand out: Pending
+                            if src_too { w.direct(s, &Op::PushB(4)); w.pdrain(s); }
+                            w.limit(s, 0, eff);    // must wake
+                            w.ppoll(s);
+                            w.pdrain(s);
+                        });
+                    }
+                }
+            }
+        }
+        sink.stat_n("limit_burst_cases", nll);
+    }
     // ---- R. random histories over random chains -----------------------------------------------------------------
     let mut rng = Rng(args.seed ^ 0xADA9);
     let rounds = if thorough { 200000 } else { 4000 };
